@@ -147,6 +147,43 @@ def probes():
                        b.let('i%', int_lit(2)), s_call(0, [idx(a, [b.V('i%')])]),
                        P(idx(a, [int_lit(2)])), s_call(0, [bin_(1, b.V('x%'), int_lit(0))]),
                        P(b.V('x%'))]))
+    b = B('select-case-boundaries')
+    i = b.V('i%')
+    out.append(b.done([s_for(b.v('i%'), int_lit(-1), int_lit(7), None, [
+        s_select(i, [([[2, int_lit(1), int_lit(3)]], [P(lit(STR, 'r'), 1)]),
+                     ([[3, 11, int_lit(5)]], [P(lit(STR, 'g'), 1)]),
+                     ([[1, int_lit(4)], [1, int_lit(0)]], [P(lit(STR, 'l'), 1)]),
+                     ([[3, 12, int_lit(-1)]], [P(lit(STR, 'n'), 1)])],
+                 [P(lit(STR, 'e'), 1)])]), P()]))
+    b = B('select-case-strings-and-floats')
+    out.append(b.done([b.let('s$', lit(STR, 'b')), b.let('x!', lit(S, 2.5)),
+                       s_select(b.V('s$'), [([[2, lit(STR, 'a'), lit(STR, 'b')]], [P(lit(STR, 'in'))])],
+                                [P(lit(STR, 'out'))]),
+                       s_select(b.V('x!'), [([[2, int_lit(1), int_lit(2)]], [P(lit(STR, 'low'))]),
+                                            ([[3, 10, int_lit(3)]], [P(lit(STR, 'mid'))])],
+                                [P(lit(STR, 'high'))])]))
+    b = B('nested-exit-for')
+    out.append(b.done([s_for(b.v('i%'), int_lit(1), int_lit(3), None, [
+        s_for(b.v('j%'), int_lit(1), int_lit(3), None, [
+            s_ifline(bin_(8, b.V('j%'), int_lit(2)), [s_exit(1)], []),
+            P(b.V('i%'), 1, b.V('j%'), 1)]),
+        P(lit(STR, 'o'), 1)]), P(b.V('i%'), 1, b.V('j%'))]))
+    b = B('nested-exit-do')
+    out.append(b.done([b.let('i%', int_lit(0)),
+                       s_do(0, [b.let('i%', bin_(1, b.V('i%'), int_lit(1))), b.let('j%', int_lit(0)),
+                                s_do([1, bin_(10, b.V('j%'), int_lit(5))],
+                                     [b.let('j%', bin_(1, b.V('j%'), int_lit(1))),
+                                      s_for(b.v('k%'), int_lit(1), int_lit(2), None,
+                                            [s_ifline(bin_(8, b.V('j%'), int_lit(2)), [s_exit(2)], []),
+                                             P(b.V('k%'), 1)])], 0),
+                                P(lit(STR, '|'), 1),
+                                s_ifline(bin_(13, b.V('i%'), int_lit(2)), [s_exit(2)], [])], 0),
+                       P(b.V('i%'), 1, b.V('j%'))]))
+    b = B('for-negative-step')
+    out.append(b.done([s_for(b.v('i%'), int_lit(3), int_lit(1), int_lit(-1), [P(b.V('i%'), 1)]),
+                       s_for(b.v('x!'), lit(S, 1.0), int_lit(0), un(1, lit(S, 0.25)), [P(b.V('x!'), 1)]),
+                       s_for(b.v('n&'), int_lit(1), int_lit(0), None, [P(lit(STR, 'never'))]),
+                       P(b.V('i%'), 1, b.V('x!'), 1, b.V('n&'))]))
     b = B('gosub-in-loop')
     b.p.labels = ['sr']
     out.append(b.done([s_for(b.v('i%'), int_lit(1), int_lit(3), None, [s_gosub(0)]),
